@@ -165,6 +165,13 @@ bool StepScript(InterpreterEnv& env)
     auto& is_p2sh = env.is_p2sh;
     auto& serror = env.serror;
 
+    // a script has ended: its conditionals must be balanced before anything else runs
+    // (EvalScript performs this check at the end of every script)
+    if (!vfExec.empty()) {
+        env.done = true;
+        return set_error(serror, SCRIPT_ERR_UNBALANCED_CONDITIONAL);
+    }
+
     if (is_p2sh) {
         if (stack.empty())
             return set_error(serror, SCRIPT_ERR_EVAL_FALSE);
